@@ -686,6 +686,8 @@ structure Returned (s f : Sim) (ret : W) (keepR0 : Bool) (E : W → Prop) : Prop
   sspSup : PSR.privileged s.psr = true → f.savedSp = s.savedSp
   iregs : f.iregs = s.iregs
   mcr : f.mcr = s.mcr
+  /-- a caller in user mode gets its R6 back as a whole word (the RTI's stack switch restores the saved register) -/
+  r6user : PSR.privileged s.psr = false → f.reg R6 = s.reg R6
 
 /-- RTI at the end of a routine whose body kept R6, the saved SP and the two stack cells -/
 theorem return_from {Q : DevHandler → Prop} (QS : QuietSet Q) (s x t : Sim) (q_t : Q t.dev) (ret : W) (keepR0 : Bool) (E : W → Prop)
@@ -713,7 +715,8 @@ theorem return_from {Q : DevHandler → Prop} (QS : QuietSet Q) (s x t : Sim) (q
   have tir : t.iregs = x.iregs := by have := congrArg (·.2.1) tctl; simpa only [ctl] using this
   have tmc : t.mcr = x.mcr := by have := congrArg (·.2.2.2.1) tctl; simpa only [ctl] using this
   refine ⟨f, hx, ⟨fpc, fpsr, ?_, ?_, ?_, ?_, by rw [ffl, tfl, hf], by rw [ffn, tfn, hfn]; omega,
-    fun hp => by rw [(fk hp).2, tss, hss]; simp [hp], by rw [fir, tir, hir], by rw [fmc, tmc, hmcr]⟩, fdev, fro, q_f⟩
+    fun hp => by rw [(fk hp).2, tss, hss]; simp [hp], by rw [fir, tir, hir], by rw [fmc, tmc, hmcr],
+    fun hp => by rw [(fu hp).1, tss, hss]; simp [hp]⟩, fdev, fro, q_f⟩
   · intro r hr hr0; rw [fro r hr, tro r hr hr0, ro r hr]
   · cases hp : PSR.privileged s.psr
     · rw [(fu hp).1, tss, hss]; simp [hp]
